@@ -1,24 +1,32 @@
 /-
   C16 — model of text search in `prompt_toolkit`:
 
-    document.py   Document.find / Document.find_backwards   (count = 1, not in_current_line)
-    buffer.py     Buffer._search / apply_search / get_search_position / document_for_search
-    search.py     start_search / stop_search / do_incremental_search / accept_search
-    key_binding/bindings/search.py (+ the emacs / vi search bindings that call them)
+    document.py   Document.find / Document.find_backwards : `docFind` / `docFindBack` (what the search
+                  uses: count = 1, whole text) and `docFindX` / `docFindBackX` (all parameters:
+                  in_current_line, include_current_position, count); get_word_under_cursor
+    buffer.py     Buffer._search / apply_search / get_search_position / document_for_search,
+                  append_to_history, auto_up / auto_down (history recall in the search field)
+    search.py     SearchState.__invert__, start_search / stop_search / do_incremental_search / accept_search
+    key_binding/bindings/search.py, vi.py (n N * # and the search bindings), emacs.py (search bindings,
+                  n / N on a read-only buffer)
     layout/controls.py  BufferControl.create_content : which Document is displayed (preview)
+  (several controls / search fields: Model/C16World.lean; physical keys through the generated binding
+   table: Model/C16Keys.lean)
 
   Conventions.
   * `eq needleChar textChar` models the character comparison of `re` for the escaped
-    (literal) pattern: `(· == ·)` normally, ASCII case folding under `re.IGNORECASE`.
+    (literal) pattern: `(· == ·)` normally; under `re.IGNORECASE` ASCII case folding (`eqCI`) or the
+    folding classes generated from the running interpreter (`eqFold Ptk.Gen.C16Fold.foldRanges`).
     It is a parameter; every theorem holds for every `eq`.
-  * `re.finditer(re.escape(sub), t)`: only the FIRST match is ever used by the anchored code
-    (`count = 1`), and the first match of a literal pattern is its leftmost occurrence:
-    `findFirst`.
+  * `re.finditer(re.escape(sub), t)`: the first match of a literal pattern is its leftmost
+    occurrence (`findFirst`); later matches do not overlap earlier ones (`findNth`).
   * `lines` = `Buffer._working_lines`, `widx` = `working_index`, `cur` = `cursor_position`.
 -/
 import Ptk.Py
 namespace Ptk.C16
 open Ptk.Py
+
+def notNl (c : Char) : Bool := c != '\n'
 
 /-! ### literal scanner -/
 
@@ -52,6 +60,42 @@ def docFind (eq : Char → Char → Bool) (text : Text) (cur : Nat) (sub : Text)
 def docFindBack (eq : Char → Char → Bool) (text : Text) (cur : Nat) (sub : Text) : Option Int :=
   let before := (text.take cur).reverse       -- text_before_cursor[::-1]
   (findFirst eq sub.reverse before).map fun (s : Nat) => -(s : Int) - (sub.length : Int)
+
+
+/-! ### Document.find / find_backwards in full: `in_current_line`, `count` (Vi f F t T ; ,) -/
+
+/-- the `count`-th element of `re.finditer(re.escape(sub), t)` : `match.start(0)`.
+    Matches do not overlap: the scan resumes behind the previous match (an empty match advances by
+    one character and there is none behind the end of the text).  `count = 0` never matches
+    (`i + 1 == count` is never true). -/
+def findNth (eq : Char → Char → Bool) (sub : Text) : Nat → Text → Option Nat
+  | 0, _ => none
+  | k + 1, t =>
+    match findFirst eq sub t with
+    | none => none
+    | some s =>
+      if k = 0 then some s
+      else if sub.isEmpty && t.length ≤ s then none
+      else
+        let adv := s + (if sub.isEmpty then 1 else sub.length)
+        (findNth eq sub k (t.drop adv)).map (· + adv)
+
+/-- `Document(text, cur).find(sub, in_current_line, include_current_position, ignore_case, count)` -/
+def docFindX (eq : Char → Char → Bool) (text : Text) (cur : Nat) (sub : Text) (inLine incl : Bool)
+    (count : Nat) : Option Nat :=
+  let after := text.drop cur
+  let t := if inLine then after.takeWhile notNl else after     -- current_line_after_cursor / text_after_cursor
+  if !incl then
+    if t.length == 0 then none
+    else (findNth eq sub count (t.drop 1)).map (· + 1)
+  else findNth eq sub count t
+
+/-- `Document(text, cur).find_backwards(sub, in_current_line, ignore_case, count)` -/
+def docFindBackX (eq : Char → Char → Bool) (text : Text) (cur : Nat) (sub : Text) (inLine : Bool)
+    (count : Nat) : Option Int :=
+  let rev := (text.take cur).reverse                          -- text_before_cursor[::-1]
+  let t := if inLine then rev.takeWhile notNl else rev        -- current_line_before_cursor[::-1]
+  (findNth eq sub.reverse count t).map fun (s : Nat) => -(s : Int) - (sub.length : Int)
 
 /-! ### Buffer._search -/
 
@@ -157,13 +201,22 @@ def getSearchPosition (eq : Char → Char → Bool) (b : Buf) (sub : Text) (dir 
 
 /-! ### the incremental-search session (search.py + bindings + BufferControl preview) -/
 
-/-- what the search keys can see and change -/
+/-- what the search keys can see and change.
+    The search field is a `Buffer` of its own: its working lines are kept as a zipper
+    `fbefore ++ [field] ++ fafter` (working_index = `fbefore.length`), `fhist` are the strings of
+    its history (oldest first), `floaded` says whether that history has been loaded into the
+    working lines since the last `Buffer.reset()` (`BufferControl.create_content` triggers the load
+    when the field is rendered). -/
 structure Sess where
   buf : Buf            -- the searched (main) buffer
   field : Text         -- text of the search field's own buffer
   stext : Text         -- SearchState.text
   sdir : Dir           -- SearchState.direction
   searching : Bool     -- the search field is focused (a search link exists)
+  fbefore : List Text := []   -- search field: working lines before the current one
+  fafter : List Text := []    -- search field: working lines after the current one
+  fhist : List Text := []     -- search field: history strings, oldest first
+  floaded : Bool := false     -- search field: history loaded into the working lines
 deriving Repr, DecidableEq
 
 inductive Key where
@@ -175,6 +228,8 @@ inductive Key where
   | abort                    -- C-g / C-c
   | next (count : Nat)       -- vi `n`  (navigation mode)
   | prev (count : Nat)       -- vi `N`
+  | histPrev                 -- search field history: emacs C-p, vi Up   (`Buffer.auto_up`)
+  | histNext                 -- search field history: emacs C-n, vi Down (`Buffer.auto_down`)
 deriving Repr, DecidableEq
 
 /-- `document.is_cursor_at_the_end_of_line and len(document.current_line) > 0` -/
@@ -196,15 +251,31 @@ def viAtEolNonEmpty (b : Buf) : Bool :=
 def viFix (b : Buf) : Buf :=
   if viAtEolNonEmpty b then { b with cur := b.cur - 1 } else b
 
-/-- `search.stop_search` : focus back, search field reset -/
-def stopSearch (s : Sess) : Sess := { s with searching := false, field := [] }
+/-- `search.stop_search` : focus back; `search_buffer_control.buffer.reset()` leaves the search
+    field with the single working line `""` and forgets that its history was loaded -/
+def stopSearch (s : Sess) : Sess :=
+  { s with searching := false, field := [], fbefore := [], fafter := [], floaded := false }
+
+/-- `Buffer.append_to_history()` of the search field (in `accept_search`): a non-empty text that
+    differs from the newest history string is appended -/
+def appendHist (h : List Text) (t : Text) : List Text :=
+  if t.isEmpty then h
+  else if h.getLast? == some t then h
+  else h ++ [t]
+
+/-- the search field is rendered while it has the focus: `BufferControl.create_content` calls
+    `load_history_if_not_yet_loaded`, whose task `appendleft`s the history strings (newest first)
+    to the working lines and increments `working_index` for each -/
+def renderField (s : Sess) : Sess :=
+  if s.searching && !s.floaded then { s with fbefore := s.fhist ++ s.fbefore, floaded := true }
+  else s
 
 /-- one key.  `vi = true`: Vi editing mode with the main buffer in navigation mode whenever the
     search field is not focused.  Keys that are not search keys in the current state
     (e.g. a printable key in Vi navigation mode) are outside the model: state unchanged. -/
 def step (eq : Char → Char → Bool) (vi : Bool) (s : Sess) : Key → Sess
   | .start d =>
-    if s.searching then s else { s with sdir := d, searching := true }
+    if s.searching then s else renderField { s with sdir := d, searching := true }
   | .type c =>
     if s.searching then { s with field := s.field ++ [c] }
     else if vi then s
@@ -229,7 +300,8 @@ def step (eq : Char → Char → Bool) (vi : Bool) (s : Sess) : Key → Sess
     if s.searching then
       -- accept_search
       let st := if !s.field.isEmpty then s.field else s.stext
-      let s1 := { s with stext := st, buf := applySearch eq s.buf st s.sdir true 1 }
+      let s1 := { s with stext := st, buf := applySearch eq s.buf st s.sdir true 1,
+                         fhist := appendHist s.fhist s.field }   -- search_control.buffer.append_to_history()
       let s2 := stopSearch s1
       if vi then viFixS s2 else s2
     else s
@@ -242,6 +314,20 @@ def step (eq : Char → Char → Bool) (vi : Bool) (s : Sess) : Key → Sess
   | .prev count =>
     if vi && !s.searching then
       viFixS { s with buf := applySearch eq s.buf s.stext s.sdir.inv false count }
+    else s
+  | .histPrev =>
+    -- auto_up -> history_backward(1): `for i in range(working_index - 1, -1, -1)`: first index
+    if s.searching then
+      match s.fbefore.getLast? with
+      | none => s
+      | some x => { s with fbefore := s.fbefore.dropLast, field := x, fafter := s.field :: s.fafter }
+    else s
+  | .histNext =>
+    -- auto_down -> history_forward(1)
+    if s.searching then
+      match s.fafter with
+      | [] => s
+      | x :: rest => { s with fbefore := s.fbefore ++ [s.field], field := x, fafter := rest }
     else s
 where
   viFixS (s : Sess) : Sess := { s with buf := viFix s.buf }
@@ -256,11 +342,129 @@ def run (eq : Char → Char → Bool) (vi : Bool) (s : Sess) : List Key → Sess
   | [] => s
   | k :: ks => run eq vi (step eq vi s k) ks
 
+
+/-! ### SearchState objects, `~search_state` -/
+
+/-- `search.SearchState` : text, direction, ignore_case -/
+structure SState where
+  text : Text
+  dir : Dir
+  ic : Bool
+deriving Repr, DecidableEq
+
+/-- `SearchState.__invert__` : a NEW state with the direction flipped, same text, same
+    ignore_case -/
+def SState.inv (ss : SState) : SState :=
+  { text := ss.text,
+    dir := (match ss.dir with
+            | .bwd => .fwd
+            | _ => .bwd),
+    ic := ss.ic }
+
+/-- `Buffer.apply_search(search_state, …)` with the comparison chosen by `search_state.ignore_case()` -/
+def applySS (eqOf : Bool → Char → Char → Bool) (b : Buf) (ss : SState) (incl : Bool) (count : Nat) :
+    Buf :=
+  applySearch (eqOf ss.ic) b ss.text ss.dir incl count
+
+/-! ### the word under the cursor (Vi `*` and `#`) -/
+
+/-- `[a-zA-Z0-9_]` (also `string.ascii_letters + "0123456789_"`) -/
+def isWordCh (c : Char) : Bool :=
+  ('a' ≤ c && c ≤ 'z') || ('A' ≤ c && c ≤ 'Z') || ('0' ≤ c && c ≤ '9') || c == '_'
+
+/-- `[^a-zA-Z0-9_\s]` ; `isSp` is the interpreter's `\s` -/
+def isPunctCh (isSp : Char → Bool) (c : Char) : Bool := !isWordCh c && !isSp c
+
+/-- `_FIND_CURRENT_WORD_RE = ^([a-zA-Z0-9_]+|[^a-zA-Z0-9_\s]+)` searched in `t`: `match.end(1)`,
+    0 standing for "no match" (a match is never empty) -/
+def curWordEnd (isSp : Char → Bool) (t : Text) : Nat :=
+  match t with
+  | [] => 0
+  | x :: _ =>
+    if isWordCh x then (t.takeWhile isWordCh).length
+    else if isPunctCh isSp x then (t.takeWhile (isPunctCh isSp)).length
+    else 0
+
+/-- `Document.find_boundaries_of_current_word()` (WORD=False, no whitespace included):
+    (characters before the cursor, characters from the cursor on) -/
+def wordBounds (isSp : Char → Bool) (text : Text) (cur : Nat) : Nat × Nat :=
+  let before := ((text.take cur).reverse.takeWhile notNl)   -- current_line_before_cursor[::-1]
+  let after := (text.drop cur).takeWhile notNl               -- current_line_after_cursor
+  let mb := curWordEnd isSp before
+  let ma := curWordEnd isSp after
+  -- both match: the characters around the cursor must be of the same kind, else drop the part before
+  let mb' :=
+    if mb != 0 && ma != 0 then
+      match text[cur - 1]?, text[cur]? with
+      | some c1, some c2 => if isWordCh c1 != isWordCh c2 then 0 else mb
+      | _, _ => mb
+    else mb
+  (mb', ma)
+
+/-- `Document.get_word_under_cursor()` : `text[cursor + start : cursor + end]` -/
+def wordUnderCursor (isSp : Char → Bool) (text : Text) (cur : Nat) : Text :=
+  let (mb, ma) := wordBounds isSp text cur
+  (text.drop (cur - mb)).take (mb + ma)
+
+/-! ### further search keys: Vi `*` / `#`, Emacs `n` / `N` on a read-only buffer -/
+
+inductive XKey where
+  | base (k : Key)
+  | star (count : Nat)        -- vi `*` : search the word under the cursor forward
+  | hash (count : Nat)        -- vi `#` : … backward
+  | jumpNext (arg : Int)      -- emacs `n` on a read-only buffer (arg may be ≤ 0: Esc - n, Esc 0 n)
+  | jumpPrev (arg : Int)      -- emacs `N` on a read-only buffer
+deriving Repr, DecidableEq
+
+/-- `load_emacs_search_bindings.jump(event, search_state)` with `count = event.arg` -/
+def jump (eq : Char → Char → Bool) (b : Buf) (sub : Text) (dir : Dir) (arg : Int) : Buf :=
+  if arg < 0 then applySearch eq b sub dir.inv false (-arg).toNat
+  else if arg > 0 then applySearch eq b sub dir false arg.toNat
+  else b
+
+/-- one key of the extended key set.  `ro`: the searched buffer is read-only (Emacs mode: `n`/`N`
+    jump, printable keys are refused with a bell). -/
+def stepX (eq : Char → Char → Bool) (isSp : Char → Bool) (vi ro : Bool) (s : Sess) : XKey → Sess
+  | .base (.type c) =>
+    if !s.searching && ro then s           -- EditReadOnlyBuffer -> bell
+    else step eq vi s (.type c)
+  | .base k => step eq vi s k
+  | .star count =>
+    if vi && !s.searching then
+      let w := wordUnderCursor isSp s.buf.text s.buf.cur
+      { s with stext := w, sdir := .fwd, buf := viFix (applySearch eq s.buf w .fwd false count) }
+    else s
+  | .hash count =>
+    if vi && !s.searching then
+      let w := wordUnderCursor isSp s.buf.text s.buf.cur
+      { s with stext := w, sdir := .bwd, buf := viFix (applySearch eq s.buf w .bwd false count) }
+    else s
+  | .jumpNext arg =>
+    if !vi && ro && !s.searching then { s with buf := jump eq s.buf s.stext s.sdir arg } else s
+  | .jumpPrev arg =>
+    if !vi && ro && !s.searching then { s with buf := jump eq s.buf s.stext s.sdir.inv arg } else s
+
+def runX (eq : Char → Char → Bool) (isSp : Char → Bool) (vi ro : Bool) (s : Sess) :
+    List XKey → Sess
+  | [] => s
+  | k :: ks => runX eq isSp vi ro (stepX eq isSp vi ro s k) ks
+
 /-- ASCII case folding (`re.IGNORECASE` restricted to ASCII text and needle) -/
 def foldAscii (c : Char) : Char :=
   if 'A' ≤ c ∧ c ≤ 'Z' then Char.ofNat (c.toNat + 32) else c
 
 def eqCS (a b : Char) : Bool := a == b
 def eqCI (a b : Char) : Bool := foldAscii a == foldAscii b
+
+/-- case folding through an ascending table of ranges `(lo, hi, delta)` : code points `lo..hi` fold
+    to `code point - delta`, everything else to itself.  The table for `re.IGNORECASE` on `str` is
+    generated from the running interpreter (`Ptk.Gen.C16Fold.foldRanges`). -/
+def foldWith : List (Nat × Nat × Nat) → Nat → Nat
+  | [], n => n
+  | (lo, hi, d) :: rest, n => if n < lo then n else if n ≤ hi then n - d else foldWith rest n
+
+/-- `re.IGNORECASE` comparison of a pattern character with a text character: same fold -/
+def eqFold (tbl : List (Nat × Nat × Nat)) (a b : Char) : Bool :=
+  foldWith tbl a.toNat == foldWith tbl b.toNat
 
 end Ptk.C16
